@@ -153,7 +153,17 @@ class _Conv:
             inc = []
             if raw[3] and raw[3].get("kind"):
                 e = self.expr(raw[3])
-                inc = [self.expr_stmt(e, ln)]
+                # `j++, p += n, q += m`: one statement per operand
+                parts = []
+
+                def unfold(x):
+                    if x.k == "comma":
+                        unfold(x.a[0])
+                        unfold(x.a[1])
+                    else:
+                        parts.append(x)
+                unfold(e)
+                inc = [self.expr_stmt(x, ln) for x in parts]
             body = self.stmts(raw[4]) if raw[4] and raw[4].get("kind") else []
             return X("cfor", init, cond, inc, body, line=ln)
         if k == "WhileStmt":
